@@ -38,6 +38,17 @@ def run_case(c):
         R.append(call("relative_major", i, lambda: keys.relative_major(k), nm))
         R.append(call("relative_minor", i, lambda: keys.relative_minor(k), nm))
         R.append(call("Key", i, lambda: keys.Key(k), keyobj))
+    elif kd == "after":
+        from .c15 import in_child
+        k1 = txt(c["k1"])
+        for k2c in c["k2s"]:
+            k2 = txt(k2c)
+            def f():
+                def work():
+                    keys.get_notes(k1)
+                    return list(keys.get_notes(k2))
+                return in_child(work)
+            R.append(call("get_notes_after", {"k1": list(k1), "k2": list(k2)}, f, names))
     elif kd == "sig":
         R.append(call("get_key", {"i": c["i"]}, lambda: keys.get_key(c["i"]), pair))
     elif kd == "step":
